@@ -4,44 +4,44 @@ Require Import EoNV.Gen.Effects.
 Import ListNotations.
 Open Scope string_scope.
 Definition one (n : string) := filter (fun fd => String.eqb (fn_name fd) n) eon_program.
-Eval vm_compute in (report eon_program (one "_dSIR_pair_based_")).
-Eval vm_compute in (dead_report eon_program (one "_dSIR_pair_based_")).
-Eval vm_compute in (report eon_program (one "SIR_pair_based")).
-Eval vm_compute in (dead_report eon_program (one "SIR_pair_based")).
+Eval vm_compute in (report eon_program (one "Gillespie_SIS")).
+Eval vm_compute in (dead_report eon_program (one "Gillespie_SIS")).
+Eval vm_compute in (report eon_program (one "fast_SIS")).
+Eval vm_compute in (dead_report eon_program (one "fast_SIS")).
 Eval vm_compute in (report eon_program (one "SIS_effective_degree_from_graph")).
 Eval vm_compute in (dead_report eon_program (one "SIS_effective_degree_from_graph")).
-Eval vm_compute in (report eon_program (one "SIR_compact_effective_degree_from_graph")).
-Eval vm_compute in (dead_report eon_program (one "SIR_compact_effective_degree_from_graph")).
+Eval vm_compute in (report eon_program (one "SIR_heterogeneous_pairwise")).
+Eval vm_compute in (dead_report eon_program (one "SIR_heterogeneous_pairwise")).
 Eval vm_compute in (report eon_program (one "_dEBCM_pref_mix_")).
 Eval vm_compute in (dead_report eon_program (one "_dEBCM_pref_mix_")).
-Eval vm_compute in (report eon_program (one "_process_trans_SIS_Markov")).
-Eval vm_compute in (dead_report eon_program (one "_process_trans_SIS_Markov")).
 Eval vm_compute in (report eon_program (one "_get_Nk_and_IC_as_arrays_")).
 Eval vm_compute in (dead_report eon_program (one "_get_Nk_and_IC_as_arrays_")).
-Eval vm_compute in (report eon_program (one "_dSIS_compact_pairwise_")).
-Eval vm_compute in (dead_report eon_program (one "_dSIS_compact_pairwise_")).
-Eval vm_compute in (report eon_program (one "Attack_rate_discrete")).
-Eval vm_compute in (dead_report eon_program (one "Attack_rate_discrete")).
-Eval vm_compute in (report eon_program (one "SIR_compact_pairwise")).
-Eval vm_compute in (dead_report eon_program (one "SIR_compact_pairwise")).
-Eval vm_compute in (report eon_program (one "_dSIS_homogeneous_pairwise_")).
-Eval vm_compute in (dead_report eon_program (one "_dSIS_homogeneous_pairwise_")).
-Eval vm_compute in (report eon_program (one "SIS_super_compact_pairwise")).
-Eval vm_compute in (dead_report eon_program (one "SIS_super_compact_pairwise")).
-Eval vm_compute in (report eon_program (one "_dEBCM_")).
-Eval vm_compute in (dead_report eon_program (one "_dEBCM_")).
+Eval vm_compute in (report eon_program (one "_dSIS_super_compact_pairwise_")).
+Eval vm_compute in (dead_report eon_program (one "_dSIS_super_compact_pairwise_")).
+Eval vm_compute in (report eon_program (one "_find_next_trans_SIS_Markov")).
+Eval vm_compute in (dead_report eon_program (one "_find_next_trans_SIS_Markov")).
+Eval vm_compute in (report eon_program (one "SIS_individual_based")).
+Eval vm_compute in (dead_report eon_program (one "SIS_individual_based")).
+Eval vm_compute in (report eon_program (one "SIR_super_compact_pairwise_from_graph")).
+Eval vm_compute in (dead_report eon_program (one "SIR_super_compact_pairwise_from_graph")).
+Eval vm_compute in (report eon_program (one "_count_edge_types_")).
+Eval vm_compute in (dead_report eon_program (one "_count_edge_types_")).
+Eval vm_compute in (report eon_program (one "_dSIR_homogeneous_pairwise_")).
+Eval vm_compute in (dead_report eon_program (one "_dSIR_homogeneous_pairwise_")).
+Eval vm_compute in (report eon_program (one "nonMarkov_directed_percolate_network_with_timing")).
+Eval vm_compute in (dead_report eon_program (one "nonMarkov_directed_percolate_network_with_timing")).
 Eval vm_compute in (report eon_program (one "SIR_homogeneous_meanfield")).
 Eval vm_compute in (dead_report eon_program (one "SIR_homogeneous_meanfield")).
-Eval vm_compute in (report eon_program (one "_dSIR_homogeneous_meanfield_")).
-Eval vm_compute in (dead_report eon_program (one "_dSIR_homogeneous_meanfield_")).
-Eval vm_compute in (report eon_program (one "estimate_R0")).
-Eval vm_compute in (dead_report eon_program (one "estimate_R0")).
-Eval vm_compute in (report eon_program (one "nonMarkov_directed_percolate_network")).
-Eval vm_compute in (dead_report eon_program (one "nonMarkov_directed_percolate_network")).
+Eval vm_compute in (report eon_program (one "SIS_pair_based_pure_IC")).
+Eval vm_compute in (dead_report eon_program (one "SIS_pair_based_pure_IC")).
+Eval vm_compute in (report eon_program (one "_my_odeint_")).
+Eval vm_compute in (dead_report eon_program (one "_my_odeint_")).
+Eval vm_compute in (report eon_program (one "get_PGFDPrime")).
+Eval vm_compute in (dead_report eon_program (one "get_PGFDPrime")).
 Eval vm_compute in (report eon_program (one "_in_component_")).
 Eval vm_compute in (dead_report eon_program (one "_in_component_")).
-Eval vm_compute in (report eon_program (one "EBCM_pref_mix_from_graph")).
-Eval vm_compute in (dead_report eon_program (one "EBCM_pref_mix_from_graph")).
+Eval vm_compute in (report eon_program (one "EBCM_uniform_introduction")).
+Eval vm_compute in (dead_report eon_program (one "EBCM_uniform_introduction")).
 Eval vm_compute in (report eon_program (one "_truncated_exponential_")).
 Eval vm_compute in (dead_report eon_program (one "_truncated_exponential_")).
 Eval vm_compute in (report eon_program (one "Gillespie_Arbitrary")).
